@@ -48,6 +48,8 @@ THEOREMS = [
     "clusterUpdate_is_clusterMove",
 ]
 
+GATE_THEOREMS = ["cluster_gate", "classification_meaning"]
+
 RULE = ("synthetic valid strings (1..6 spins quick / 1..9 thorough; per world line 0 / exactly 1 / many constant ops, idle "
         "spins, multi-edges, constant two-spin ops, three-spin ops, single-site symmetric and field ops, random rotation in "
         "imaginary time so ops wrap the boundary) installed with FastOps::new_from_ops, plus equilibrium strings from real "
@@ -57,7 +59,11 @@ RULE = ("synthetic valid strings (1..6 spins quick / 1..9 thorough; per world li
         "compared with the exact model clusterUpdate (kind exact: output state, output string incl. tags, returned count and "
         "draw verdict must be identical; the traversal's own boundary labels must name the proved components). Non-trivial = "
         "at least one operator (move) / at least two clusters (single) / at least two clusters and a changed configuration "
-        "(exact); distinct = distinct (before, after, draws).")
+        "(exact); distinct = distinct (before, after, draws). Kind gate: generic Qmc samplers with asymmetric single-site field terms "
+        "(with / without a zero matrix element, all four constructors), symmetric two-site diagonal terms and constant single-site "
+        "terms registered with the asymmetric ones first / in the middle / last / at random: should_do_cluster_update() and "
+        "cluster_update() must follow the gate (refuse iff any term is asymmetric), then diagonal/loop/cluster/free steps and "
+        "timesteps: no op on a zero matrix element, every cluster step that runs goes through the full move oracle and models.")
 
 
 def main(ck):
@@ -65,6 +71,17 @@ def main(ck):
     pure_fns.run(ck)   # source->Lean translation of pure functions, re-proved equal to the hand model
     if ck.lake_build(LEAN_TARGETS):
         ck.audit("QmcProps.C09", ["Qmc.C09." + t for t in THEOREMS])
+    # the gate of the generic sampler (Qmc::cluster_update refuses / timestep skips the cluster update as soon as ANY
+    # registered term breaks the Ising symmetry, for every order of the adds) is proved in C04's file; C09's last clause
+    # ("clusters holding a symmetry-breaking op are never flipped") rests on it for `Qmc`, so it is audited here as well.
+    # Tied to qmc_runner.rs by the `gate` cases of the harness (oracle + driver).
+    if ck.lake_build(["QmcProps.C04"]):
+        save = ck.prop
+        try:
+            ck.prop = save + "gate"
+            ck.audit("QmcProps.C04", ["Qmc.C04." + t for t in GATE_THEOREMS])
+        finally:
+            ck.prop = save
     if ck.cargo_build(BINS):
         cases = ck.harness("c09", ["synthetic"])
         ck.correspond("synthetic-strings", "drv_c09", cases)
